@@ -297,7 +297,12 @@ func frameKeys(buf []byte) [][]byte {
 func tapeChunks(t *core.Tape, cs [][]byte) { t.BytesList(cs) }
 
 func writerExec(s core.Spec) core.Exec {
-	sp := s.(*WriterSpec)
+	e, _ := writerRun(s.(*WriterSpec))
+	return e
+}
+
+// writerRun executes the program on a real Conn; also returns the bytes accepted by the transport.
+func writerRun(sp *WriterSpec) (core.Exec, []byte) {
 	var log []wEvent
 	conn := &wConn{log: &log, failAt: sp.FailAt, failKind: sp.FailKind, shortN: sp.ShortN}
 	var pool *tPool
@@ -572,7 +577,13 @@ func writerExec(s core.Spec) core.Exec {
 	if sp.Note != "" {
 		tags = append(tags, "note:"+sp.Note)
 	}
-	return core.Exec{Tape: full, Tags: tags, Nontrivial: len(log) > 0}
+	var wire []byte
+	for _, e := range log {
+		if e.kind == 2 || e.kind == 3 {
+			wire = append(wire, e.data...)
+		}
+	}
+	return core.Exec{Tape: full, Tags: tags, Nontrivial: len(log) > 0}, wire
 }
 
 // reader that returns its bytes in one Read (or as much as fits), then io.EOF
